@@ -455,6 +455,9 @@ func (c *ColumnType) UnmarshalJSON(data []byte) error {
 	if err != nil {
 		return err
 	}
+	if colType.Key == nil {
+		return fmt.Errorf("a <type> object requires a key")
+	}
 	c.Key = colType.Key
 	c.Value = colType.Value
 	c.min = colType.Min
